@@ -1123,11 +1123,19 @@ impl Actor {
                 //
                 // However, some of these sectors may have been
                 // terminated. That's fine, we'll skip them.
+                //
+                // The faults are recorded against the sectors as they are now, not as they were
+                // in the proof snapshot: a replica update or an extension since the deadline
+                // closed may have changed their power and expiration, and the partition's
+                // queues and power totals hold the current values.
+                let current_sectors = Sectors::load(rt.store(), &st.sectors).map_err(|e| {
+                    e.downcast_default(ExitCode::USR_ILLEGAL_STATE, "failed to load sectors array")
+                })?;
                 let fault_expiration_epoch = target_deadline.last() + policy.fault_max_age;
                 let power_delta = dl_current
                     .record_faults(
                         rt.store(),
-                        &sectors,
+                        &current_sectors,
                         info.sector_size,
                         quant_spec_for_deadline(policy, &target_deadline),
                         fault_expiration_epoch,
